@@ -128,7 +128,10 @@ pub fn test_case(case: &ReuseCase) -> TestResult {
     let mut left_tag_state = false;
     let mut failed_update = false;
     let mut switched_predictor = false;
+    let mut switched_since_update = false;
+    let mut refilled_after_switch = false;
     let mut last_pred: Option<usize> = None;
+    let mut last_pred_on_text: Option<usize> = None;
     let mut stored_scores = false;
     let rule_surface: String = case.final_text.chars().take(1).collect();
     for (k, op) in case.ops.iter().enumerate() {
@@ -140,6 +143,8 @@ pub fn test_case(case: &ReuseCase) -> TestResult {
                     Fmt::Partial => s.update_partial_annotation(x),
                 };
                 linked = None;
+                switched_since_update = false;
+                last_pred_on_text = None;
                 match r {
                     Ok(()) => left_tag_state |= s.n_tags() > 0,
                     Err(_) => failed_update = true,
@@ -151,6 +156,10 @@ pub fn test_case(case: &ReuseCase) -> TestResult {
                 if let Some(lp) = last_pred {
                     switched_predictor |= lp != pi;
                 }
+                if let Some(lp) = last_pred_on_text {
+                    switched_since_update |= lp / 3 != pi / 3;
+                }
+                last_pred_on_text = Some(pi);
                 last_pred = Some(pi);
                 linked = Some(pi);
                 // whatever the history (edited boundaries, earlier predictions by this or another
@@ -170,6 +179,32 @@ pub fn test_case(case: &ReuseCase) -> TestResult {
                         s.fill_tags();
                         left_tag_state = true;
                         stored_scores |= pi % 3 == 2;
+                        refilled_after_switch |= switched_since_update;
+                        // tagging through the used sentence (whatever was predicted, filled,
+                        // reset or filtered before on it) gives what a fresh sentence with this
+                        // text, this predictor and these boundaries gets
+                        let mut f = Sentence::from_raw(s.as_raw_text().to_string()).map_err(|e| e.to_string())?;
+                        ps[pi].predict(&mut f);
+                        f.boundaries_mut().copy_from_slice(s.boundaries());
+                        f.fill_tags();
+                        ensure_eq!(
+                            util::observe(&s),
+                            util::observe(&f),
+                            "after op {k} {op:?}: tags filled on the reused sentence differ from a fresh one (predictor {pi})"
+                        );
+                        if pi % 3 == 2 {
+                            let cands = |x: &Sentence| -> Vec<Vec<Vec<(String, i32)>>> {
+                                x.iter_tokens()
+                                    .map(|t| {
+                                        t.tag_candidates()
+                                            .into_iter()
+                                            .map(|c| c.into_iter().map(|(n, sc)| (n.to_string(), sc)).collect())
+                                            .collect()
+                                    })
+                                    .collect()
+                            };
+                            ensure_eq!(cands(&s), cands(&f), "after op {k} {op:?}: tag candidates on the reused sentence differ from a fresh one");
+                        }
                     }
                 } else {
                     s.fill_tags(); // no linked predictor: documented no-op
@@ -205,6 +240,7 @@ pub fn test_case(case: &ReuseCase) -> TestResult {
         .class(left_tag_state, "history-leaves-tag-state")
         .class(failed_update, "failed-update-in-history")
         .class(switched_predictor, "predictor-switch")
+        .class(refilled_after_switch, "tags-filled-after-predictor-switch-on-one-text")
         .class(stored_scores, "scores-stored-in-history")
         .class(
             left_tag_state && (case.final_pred % 3 == 0 || !case.final_fill),
@@ -246,6 +282,64 @@ fn op_strategy(texts: Vec<String>) -> impl Strategy<Value = Op> {
     .prop_map(move |op| { let _ = &texts2; op })
 }
 
+/// Histories of predictions by several tag predictors on one loaded text: the scratch state of
+/// one prediction (automaton states, scores, tag scores) is what the next one starts from.
+fn switch_ops(texts: Vec<String>) -> impl Strategy<Value = Vec<Op>> {
+    (
+        any::<u16>(),
+        proptest::collection::vec((prop_oneof![Just(1u8), Just(2u8), Just(4u8), Just(5u8)], 0u8..7, any::<u16>()), 2..=6),
+    )
+        .prop_map(move |(ti, steps)| {
+            let mut ops = vec![Op::Update(Fmt::Raw, texts[pick(ti, texts.len())].clone())];
+            for (p, k, sel) in steps {
+                ops.push(Op::Predict(p));
+                match k {
+                    0 => ops.push(Op::FillTags),
+                    1 => {
+                        ops.push(Op::Edit(sel, (sel % 3) as u8));
+                        ops.push(Op::FillTags);
+                    }
+                    // the tags are wiped or rewritten between the prediction and the tagging
+                    2 => {
+                        ops.push(Op::ResetTags((sel % 4) as usize));
+                        ops.push(Op::FillTags);
+                    }
+                    3 => {
+                        ops.push(Op::FillTags);
+                        ops.push(Op::ResetTags((sel % 4) as usize));
+                        ops.push(Op::Edit(sel, (sel % 3) as u8));
+                        ops.push(Op::FillTags);
+                    }
+                    4 => {
+                        ops.push(Op::Filter((sel % 9) as u8));
+                        ops.push(Op::FillTags);
+                    }
+                    _ => {}
+                }
+            }
+            ops.push(Op::FillTags);
+            ops
+        })
+}
+
+/// Model B as a thinned copy of model A: the same tag models and windows, some n-grams removed,
+/// so that A's automata match where B's do not and pattern numbers of the two overlap.
+fn thinned(a: &ModelSpec, mask: u64) -> ModelSpec {
+    let mut b = a.clone();
+    let mut k = 0u32;
+    let mut keep = || {
+        k += 1;
+        (mask >> (k % 64)) & 1 == 1
+    };
+    b.type_ngrams.retain(|_| keep());
+    b.char_ngrams.retain(|_| keep());
+    for t in b.tag_models.iter_mut() {
+        t.type_ngrams.retain(|_| keep());
+        t.char_ngrams.retain(|_| keep());
+    }
+    b
+}
+
 pub fn case_strategy() -> impl Strategy<Value = ReuseCase> {
     (
         gen::model_case(ModelCfg { min_texts: 2, ..ModelCfg::TAGGED }),
@@ -253,19 +347,23 @@ pub fn case_strategy() -> impl Strategy<Value = ReuseCase> {
         any::<u16>(),
         0u8..6,
         prop::bool::weighted(0.7),
+        (0u8..3, any::<u64>(), 0u8..3),
     )
-        .prop_flat_map(|(a, b, ti, fp, ff)| {
+        .prop_flat_map(|(a, b, ti, fp, ff, (thin, mask, hist))| {
             let mut texts = a.texts.clone();
-            texts.extend(b.texts.iter().cloned());
+            let b_spec = if thin == 0 {
+                thinned(&a.spec, mask)
+            } else {
+                texts.extend(b.texts.iter().cloned());
+                b.spec
+            };
             let final_text = texts[pick(ti, texts.len())].clone();
-            (
-                Just(a.spec),
-                Just(b.spec),
-                proptest::collection::vec(op_strategy(texts), 0..=10),
-                Just(final_text),
-                Just(fp),
-                Just(ff),
-            )
+            let ops = if hist == 0 {
+                switch_ops(texts).boxed()
+            } else {
+                proptest::collection::vec(op_strategy(texts), 0..=10).boxed()
+            };
+            (Just(a.spec), Just(b_spec), ops, Just(final_text), Just(fp), Just(ff))
         })
         .prop_map(|(a, b, ops, final_text, final_pred, final_fill)| ReuseCase {
             a,
